@@ -240,6 +240,17 @@ class DocutilsRenderer(RendererProtocol):
     def _render_finalise(self) -> None:
         """Finalise the render of the document."""
 
+        # a directive can discard the content it has parsed (e.g. ``table`` without
+        # a table): the ``pending`` nodes in there must not be transformed,
+        # e.g. docutils' local ``contents`` looks for the section of its node
+        attached = list(findall(self.document)(nodes.pending))
+        transformer = self.document.transformer
+        transformer.transforms = [
+            item
+            for item in transformer.transforms
+            if item[2] is None or item[2] in attached
+        ]
+
         # save for later reference resolution
         self.document.myst_slugs = self._heading_slugs
         if self._heading_slugs and self.sphinx_env:
